@@ -1,12 +1,17 @@
 import Driver.Util
 import Driver.Ops.L2
 import Asn1cModel.L2.Uper
+import Asn1cModel.L2.UperVariants
+import Driver.Ops.L2Oer
 namespace Driver.Ops.L2Uper
 open Asn1c Asn1c.L2 Driver
 
 /-- `@Type l2enc uper <positional val>` → `ok <hex>` | `fail`;
     `@Type l2dec uper <hex>` → `ok <consumed octets> <val>` | `fail`;
-    `@Type l2pty` prints the resolved PER view of the type -/
+    `@Type l2pty` prints the resolved PER view of the type
+    `@Type l2encvar uper <kind>[:<param>] <index>[+] <val>` → `ok <hex>` | `same` | `fail`: the complete encoding with the
+      version-skew variation `older:<n>` / `newer:<-|e|hex,…>` (or `none`) applied at the `index`-th applicable
+      extensible SEQUENCE (`+`: and at all later ones), see `L2/UperVariants.lean` -/
 def run (ctx : ModCtx) (tyName : String) : List String → String
   | "l2enc" :: "uper" :: vwords =>
     match resolveNamedP ctx tyName, (Sexp.parseWords vwords).bind parseVal with
@@ -16,6 +21,16 @@ def run (ctx : ModCtx) (tyName : String) : List String → String
       | none => "fail"
     | none, _ => "unsupported-type"
     | _, none => "bad-value"
+  | "l2encvar" :: "uper" :: kind :: idx :: vwords =>
+    match resolveNamedP ctx tyName, (Sexp.parseWords vwords).bind parseVal, Driver.Ops.L2Oer.parseVar kind idx with
+    | some t, some v, some (s, false) =>
+      match Asn1c.L2.UperVar.encUV t v {}, Asn1c.L2.UperVar.encUV t v s with
+      | some (base, _), some (bits, s') =>
+        if s'.hits = 0 || (bits == base && kind != "none") then "same" else "ok " ++ toHex (Asn1c.Spec.Per.complete bits)
+      | _, _ => "fail"
+    | none, _, _ => "unsupported-type"
+    | _, none, _ => "bad-value"
+    | _, _, _ => "bad-variant"
   | ["l2dec", "uper", h] =>
     match resolveNamedP ctx tyName, parseHex h with
     | some t, some bs =>
@@ -35,6 +50,7 @@ def uperHandler : Driver.Ops.L2.SubHandler := fun ctx ty toks =>
   match toks with
   | "l2enc" :: "uper" :: _ => some (run ctx ty toks)
   | ["l2dec", "uper", _] => some (run ctx ty toks)
+  | "l2encvar" :: "uper" :: _ :: _ :: _ => some (run ctx ty toks)
   | ["l2pty"] => some (run ctx ty toks)
   | _ => none
 
